@@ -175,7 +175,7 @@ func ResourcePayload(t *rapid.T, ts *TypeSpec, o PayloadOpts) *PayloadCase {
 		if rapid.Bool().Draw(t, "unknown-attr") {
 			attrParts = append(attrParts, `"nope":1`)
 		} else {
-			relParts = append(relParts, `"nope":{"data":null}`)
+			relParts = append(relParts, `"nope":`+rapid.SampledFrom([]string{`{"data":null}`, `{"links":{"self":"/x"}}`, `{"meta":{}}`, `{}`, `{"data":[]}`}).Draw(t, "unknown-rel-form"))
 		}
 	}
 
